@@ -706,6 +706,14 @@ CacheLagBounded ==
     \A e \in AggEntities :
         (lock[e] = {} /\ cache[e] # None) => NextVer(e) - cache[e].ver <= 1
 
+\* What the lock is there for (everything but the lock itself): used with
+\* the weakened lock to show that the properties depend on it.
+Consequences ==
+    /\ NoExit /\ VersionsContiguous /\ ExactlyOnce /\ ReaderSeesPrefix
+    /\ RejectLeavesOnlyAudit /\ NoopLeavesNoTrace
+    /\ PreSaveFailLeavesNothing /\ HistoryListsAll
+    /\ ReplayEqSnapshotEqLive
+
 Safety ==
     /\ TypeOK /\ LockDiscipline /\ NoExit /\ VersionsContiguous
     /\ ExactlyOnce /\ ReaderSeesPrefix /\ RejectLeavesOnlyAudit
